@@ -138,14 +138,14 @@ func NewReverseSuffixSearcher(
 	// Only OpStar(AnyChar) guarantees match starts at 0/at — skip reverse DFA.
 	// Other wildcards like .+, [^\s]+, \w{2,8} do NOT guarantee this.
 	s := &ReverseSuffixSearcher{
-		forwardNFA:     forwardNFA,
-		reverseNFA:     reverseNFA,
-		reverseDFA:     reverseDFA,
-		forwardDFA:     forwardDFA,
-		prefilter:      pre,
-		pikevm:         pikevm,
-		suffixLen:      suffixLen,
-		suffixBytes:    suffixBytes,
+		forwardNFA:  forwardNFA,
+		reverseNFA:  reverseNFA,
+		reverseDFA:  reverseDFA,
+		forwardDFA:  forwardDFA,
+		prefilter:   pre,
+		pikevm:      pikevm,
+		suffixLen:   suffixLen,
+		suffixBytes: suffixBytes,
 		// The `.*` fast path reasons line by line (a default dot stops at '\n'); a suffix
 		// that itself contains a newline spans two lines, so it takes the reverse scan.
 		matchStartZero: matchStartZero && bytes.IndexByte(suffixBytes, '\n') < 0,
